@@ -3267,7 +3267,9 @@ static Token *function(Token *tok, Type *basety, VarAttr *attr) {
     fn->is_inline = attr->is_inline;
   }
 
-  fn->is_root = !(fn->is_static && fn->is_inline);
+  // A reference from file scope may already have made it a root.
+  if (!(fn->is_static && fn->is_inline))
+    fn->is_root = true;
 
   if (consume(&tok, tok, ";"))
     return tok;
